@@ -4,13 +4,17 @@ import (
 	"bufio"
 	"bytes"
 	"context"
+	"crypto/tls"
 	"errors"
 	"fmt"
 	"io"
 	"net"
 	"net/http"
+	"net/http/cookiejar"
+	"net/http/httptrace"
 	"net/url"
 	"strings"
+	"time"
 
 	"github.com/gorilla/websocket"
 	"pgregory.net/rapid"
@@ -41,12 +45,20 @@ type FuzzCase struct {
 	Subs    []string            `json:"subs,omitempty"`
 	// ReadJSON: the frames are drained with ReadJSON.
 	ReadJSON bool `json:"read_json,omitempty"`
+	// DialOpts (dialreply): bit 0 a TLSClientConfig is set (unused for ws://),
+	// bit 1 a cookie Jar, bit 2 a HandshakeTimeout, bit 3 Dial goes through
+	// DialContext with an httptrace.ClientTrace.
+	DialOpts int `json:"dial_opts,omitempty"`
 	// ManyFrames > 0: Data is generated as one text message of that many empty
 	// continuation frames (every fourth followed by an empty pong).
 	ManyFrames int `json:"many_frames,omitempty"`
 }
 
 const c07AllocBase = 4 << 20
+
+// c07Generated is the size of the input a case generated for itself
+// (ManyFrames): it counts as bytes received in the allocation bound.
+var c07Generated int
 
 func checkC07(c FuzzCase, o *Obs) error {
 	before := heapAllocs()
@@ -72,7 +84,8 @@ func checkC07(c FuzzCase, o *Obs) error {
 		return err
 	}
 	allocated := heapAllocs() - before
-	n := len(c.Data)
+	n := len(c.Data) + c07Generated
+	c07Generated = 0
 	for _, vs := range c.Headers {
 		for _, v := range vs {
 			n += len(v)
@@ -129,6 +142,9 @@ func fuzzFrames(c FuzzCase) (bool, error) {
 				observe("frames: the transport was read from a call stack %d frames deep while a message of %d empty fragments was received: the depth grows with the number of frames (unbounded recursion; a long enough message exhausts the stack)", tr.MaxDepth, c.ManyFrames)
 			}
 		}()
+	}
+	if c.ManyFrames > 0 {
+		c07Generated = len(c.Data)
 	}
 	var conn *websocket.Conn
 	var err error
@@ -302,7 +318,26 @@ func fuzzDialReply(c FuzzCase) (bool, error) {
 		ReadBufferSize:    c.ReadBuf,
 		Subprotocols:      c.Subs,
 	}
-	conn, resp, err := d.Dial("ws://example.com/x", nil)
+	if c.DialOpts&1 != 0 {
+		d.TLSClientConfig = &tls.Config{ServerName: "example.com", NextProtos: []string{"http/1.1"}}
+	}
+	if c.DialOpts&2 != 0 {
+		d.Jar, _ = cookiejar.New(nil)
+	}
+	if c.DialOpts&4 != 0 {
+		d.HandshakeTimeout = time.Hour
+	}
+	ctx := context.Background()
+	if c.DialOpts&8 != 0 {
+		ctx = httptrace.WithClientTrace(ctx, &httptrace.ClientTrace{
+			GetConn:              func(string) {},
+			GotConn:              func(httptrace.GotConnInfo) {},
+			GotFirstResponseByte: func() {},
+			WroteHeaders:         func() {},
+			WroteRequest:         func(httptrace.WroteRequestInfo) {},
+		})
+	}
+	conn, resp, err := d.DialContext(ctx, "ws://example.com/x", nil)
 	if err == nil && conn == nil {
 		return false, errors.New("dialreply: Dial returned neither a connection nor an error")
 	}
@@ -483,6 +518,8 @@ var replyTemplates = []string{
 	"HTTP/1.1 403 Forbidden\r\nTransfer-Encoding: chunked\r\n\r\n5\r\nhello\r\n0\r\n\r\n",
 	"HTTP/1.1 101 Switching Protocols\r\nUpgrade: websocket\r\nConnection: Upgrade\r\nSec-WebSocket-Accept: $ACCEPT\r\nSec-WebSocket-Extensions: permessage-deflate; client_max_window_bits=\"\\\r\n\r\n",
 	"HTTP/1.1 101 Switching Protocols\r\nUpgrade: websocket\r\nConnection: Upgrade\r\nSec-WebSocket-Accept: $ACCEPT\r\nSec-WebSocket-Extensions: foo; a=\"b\\\"c\", permessage-deflate; server_no_context_takeover\r\n\r\n",
+	"HTTP/1.1 101 Switching Protocols\r\nUpgrade: websocket\r\nConnection: Upgrade\r\nSec-WebSocket-Accept: $ACCEPT\r\nSet-Cookie: a=1; Secure\r\nSet-Cookie: b=2\r\nSet-Cookie: c=3; Secure; HttpOnly\r\nSet-Cookie: d=4; Secure\r\n\r\n",
+	"HTTP/1.1 403 Forbidden\r\nSet-Cookie: a=1; Secure\r\nSet-Cookie: =; Secure\r\nSet-Cookie: x; Domain=.com; Max-Age=-1; Secure\r\nSet-Cookie: ;;;\r\nContent-Length: 0\r\n\r\n",
 	"HTTP/1.1 000 \r\n\r\n",
 	"HTTP/1.1 99999999999999999999 x\r\n\r\n",
 	"HTTP/1.1  \r\n\r\n",
@@ -598,6 +635,9 @@ func genFuzzCase(t *rapid.T) FuzzCase {
 		}
 		if c.Entry == "dialreply" && rapid.Bool().Draw(t, "subs") {
 			c.Subs = []string{"chat"}
+		}
+		if c.Entry == "dialreply" && rapid.Bool().Draw(t, "dial_opts") {
+			c.DialOpts = rapid.IntRange(1, 15).Draw(t, "dial_opt_bits")
 		}
 	default:
 		c.Headers = map[string][]string{
